@@ -131,10 +131,10 @@ pub(crate) mod verif_kani_fs {
         at_or_under(p, b"/r") && p.len() > 3 && !has_dotdot_component(p)
     }
 
-    /// confinement to the bucket directory (the directory itself or anything below it), and hence neither
-    /// another bucket's directory nor a bookkeeping file
+    /// confinement to the bucket: STRICTLY below the bucket directory (an object is not the directory itself),
+    /// and hence neither the root, another bucket's directory nor a bookkeeping file
     fn confined_to_bucket(p: &[u8], bucket_dir: &[u8]) -> bool {
-        confined_to_root(p) && at_or_under(p, bucket_dir) && !is_bookkeeping(p)
+        confined_to_root(p) && at_or_under(p, bucket_dir) && p.len() > bucket_dir.len() + 1 && !is_bookkeeping(p)
     }
 
     /// `get_object_path(bucket, key)` is an error, or its result is confined to the bucket directory
@@ -142,17 +142,6 @@ pub(crate) mod verif_kani_fs {
         let r = fs.get_object_path(bucket, key);
         let ok = match &r {
             Ok(p) => confined_to_bucket(p.as_os_str().as_encoded_bytes(), bucket_dir),
-            Err(_) => true,
-        };
-        forget(r);
-        ok
-    }
-
-    /// `get_object_path(bucket, key)` is an error, or its result is confined to the root
-    fn object_path_in_root(fs: &FileSystem, bucket: &str, key: &str) -> bool {
-        let r = fs.get_object_path(bucket, key);
-        let ok = match &r {
-            Ok(p) => confined_to_root(p.as_os_str().as_encoded_bytes()),
             Err(_) => true,
         };
         forget(r);
@@ -191,11 +180,11 @@ pub(crate) mod verif_kani_fs {
     // the vacuity guard is the `cover!(true)` at the end of each harness.
 
     // ---------------------------------------------------------------------------------------------
-    // bounded-exhaustive: every key of length 1 and 2 over {'a', '.', '/'}  (".." excluded: it panics, see
-    // c17_finding_fs_key_bucket_parent_panics)
+    // bounded-exhaustive: every key of length 1 and 2 over {'a', '.', '/'} (nothing excluded), selected longer ones:
+    // `get_object_path` is an error or a path STRICTLY below /r/<bucket>/ that is no bookkeeping file
     // ---------------------------------------------------------------------------------------------
 
-    /// bucket "bk": key "a" maps to exactly /r/bk/a; key "." is an error or confined to /r/bk
+    /// bucket "bk": key "a" maps to exactly /r/bk/a; key "." is an error or confined to /r/bk (strictly below)
     #[kani::proof]
     #[kani::unwind(12)]
     #[kani::stub(std::env::current_dir, fixed_cwd)]
@@ -265,7 +254,8 @@ pub(crate) mod verif_kani_fs {
         forget(fs);
     }
 
-    /// bucket "bk", keys "/.", "//": error or confined to /r/bk  ("..", the 9th key of length 2, is the excluded one)
+    /// bucket "bk", keys "/.", "//", "..": error or confined to /r/bk  (".." made path-dedot panic before the fix
+    /// 44bbfd8, see c17_finding_fs_key_bucket_parent_panics)
     #[kani::proof]
     #[kani::unwind(12)]
     #[kani::stub(std::env::current_dir, fixed_cwd)]
@@ -275,6 +265,7 @@ pub(crate) mod verif_kani_fs {
         let fs = fs_root();
         assert!(object_path_in_bucket(&fs, "bk", b"/r/bk", "/."));
         assert!(object_path_in_bucket(&fs, "bk", b"/r/bk", "//"));
+        assert!(object_path_in_bucket(&fs, "bk", b"/r/bk", ".."));
         kani::cover!(true);
         forget(fs);
     }
@@ -323,8 +314,8 @@ pub(crate) mod verif_kani_fs {
         forget(fs);
     }
 
-    /// ROOT confinement only (what holds for keys that climb out of the bucket): "../a", "../../a" never leave /r
-    /// and never yield /r itself or a text with ".."
+    /// keys that climb out of the bucket: "../a", "../../a" are errors or confined to /r/bk (full bucket
+    /// confinement since the fix 44bbfd8; before it only confinement to the root held)
     #[kani::proof]
     #[kani::unwind(14)]
     #[kani::stub(std::env::current_dir, fixed_cwd)]
@@ -332,13 +323,13 @@ pub(crate) mod verif_kani_fs {
     #[kani::stub(std::thread::current::current, no_current_thread)]
     pub(crate) fn c17_keys_climbing_a() {
         let fs = fs_root();
-        assert!(object_path_in_root(&fs, "bk", "../a"));
-        assert!(object_path_in_root(&fs, "bk", "../../a"));
+        assert!(object_path_in_bucket(&fs, "bk", b"/r/bk", "../a"));
+        assert!(object_path_in_bucket(&fs, "bk", b"/r/bk", "../../a"));
         kani::cover!(true);
         forget(fs);
     }
 
-    /// ROOT confinement only: "a/../../a", ".././a"
+    /// keys that climb out of the bucket: "a/../../a", ".././a" are errors or confined to /r/bk
     #[kani::proof]
     #[kani::unwind(14)]
     #[kani::stub(std::env::current_dir, fixed_cwd)]
@@ -346,8 +337,8 @@ pub(crate) mod verif_kani_fs {
     #[kani::stub(std::thread::current::current, no_current_thread)]
     pub(crate) fn c17_keys_climbing_b() {
         let fs = fs_root();
-        assert!(object_path_in_root(&fs, "bk", "a/../../a"));
-        assert!(object_path_in_root(&fs, "bk", ".././a"));
+        assert!(object_path_in_bucket(&fs, "bk", b"/r/bk", "a/../../a"));
+        assert!(object_path_in_bucket(&fs, "bk", b"/r/bk", ".././a"));
         kani::cover!(true);
         forget(fs);
     }
